@@ -241,6 +241,8 @@ pub fn run_c07(a: &Args) {
       } }
     { let c1 = crate::conv::sync_conversations("C07", a, &mut rng, "ka", &mut st, &mut out); let c2 = crate::conv::async_conversations("C07", a, &mut rng, &mut st, &mut out); st.distinct_nontrivial += (c1.distinct.len() + c2.distinct.len()) as u64; }
     crate::c08::keepalive_sessions("C07", a, &mut st);
+    { let iort = crate::c08::io_runtime();
+      for compressed in [true, false] { for imp in ["B", "A"] { st.evaluations += 1; if let Some(w) = crate::c08::bounce_keepalive_case(imp, &iort, compressed) { st.fail(format!("[C07 udp {}] {w}", if imp == "B" { "blocking" } else { "tokio" }), format!("bounceka {imp} {}", mode_tag(compressed))); } st.bump("udp keep-alive reply meeting a bounced datagram"); } } }
     crate::net::report_unconsumed("C07", &mut st);
     out.finish(&st);
 }
